@@ -12,6 +12,7 @@ import (
 	"time"
 
 	"verif/sim/core"
+	"verif/sim/env"
 	"verif/sim/props/c04"
 	"verif/sim/props/c05"
 	"verif/sim/props/c06"
@@ -69,6 +70,9 @@ func main() {
 		os.Exit(doReplay(p, *replay))
 	}
 	cfg := core.WorkerConfig{Seed: *seed, Worker: *worker, Tier: *tier, MaxCases: *cases, Budget: *budget, ReplayDir: *rdir, Out: *out, Race: raceEnabled}
+	cfg.Extra = func() map[string]int64 {
+		return map[string]int64{"simulated_clock_seconds": env.TotalTicks}
+	}
 	if raceEnabled {
 		p = &racedProp{Prop: p, w: newRaceWatcher()}
 		cfg.External = externalTry(*prop, *known)
